@@ -10,7 +10,7 @@ rm -rf /tmp/cov && mkdir -p /tmp/cov/prof && cp -r "$ROOT/harness" /tmp/cov/harn
 (cd /tmp/cov/harness && CARGO_NET_OFFLINE=true RUSTFLAGS="-C instrument-coverage --cfg rust_crdt_rust_crdt_verif" cargo +nightly build --release --offline 2>&1 | tail -1)
 ls "$ROOT"/work/script_*.txt | xargs -P 8 -I{} sh -c 'LLVM_PROFILE_FILE=/tmp/cov/prof/%p-%m.profraw /tmp/cov/harness/target/release/verif-harness run {} > /dev/null 2>&1'
 $B/llvm-profdata merge -sparse /tmp/cov/prof/*.profraw -o /tmp/cov/all.profdata
-$B/llvm-cov report /tmp/cov/harness/target/release/verif-harness -instr-profile=/tmp/cov/all.profdata --sources /repo/src | awk '{print $1, $8, $9, $10}' | column -t
+$B/llvm-cov report /tmp/cov/harness/target/release/verif-harness -instr-profile=/tmp/cov/all.profdata --sources /repo/src | awk '{print $1, $8, $9, $10}'
 $B/llvm-cov show /tmp/cov/harness/target/release/verif-harness -instr-profile=/tmp/cov/all.profdata --sources /repo/src --show-line-counts 2>/dev/null \
   | awk '/^\/repo\/src/{f=$0} /^ *[0-9]+\| *0\|/{print f" "$0}' | sed 's/\/repo\/src\///' | grep -v "fmt\|write!\|rbitrary\|shrink\|Display\|Debug" | cut -c1-140
 rm -rf /tmp/cov
